@@ -38,8 +38,7 @@ HOSTKEY_ERRORS = ('HostKeyNotVerifiable', 'KeyExchangeFailed')
 
 def write_cfg(name, invariants=(), properties=(), **consts):
     d = dict(MaxLines=2, LineKeys='{"K1", "K2", "CA1", "CA2"}',
-             Focus='"lines"', FallbackKeepsRevoked='TRUE',
-             SkipRevoked='FALSE', PrincipalsIgnored='FALSE', Emit='FALSE')
+             Focus='"lines"', SetSize=3, Mu='"none"', Emit='FALSE')
     d.update(consts)
     lines = ['CONSTANTS'] + [f'  {k} = {v}' for k, v in d.items()]
     lines += ['SPECIFICATION Spec', 'CHECK_DEADLOCK FALSE']
@@ -73,7 +72,8 @@ def emit_cases(ctx, label, **consts):
     for v in printed_cases(res.output):
         if isinstance(v, list) and v and v[0] == 'case':
             cases.append(dict(lines=v[1], port=v[2], mode=v[3], cbKey=v[4],
-                              cbCA=v[5], pres=v[6], rule=v[7], asis=v[8]))
+                              cbCA=v[5], pres=v[6], rule=v[7],
+                              disc=sorted(v[8]['$set'])))
     ctx.require(cases, f'no cases printed by TLC for {label}')
     return cases
 
@@ -88,7 +88,10 @@ def main(ctx):
         import json
         with open(ctx.replay_path) as f:
             rp = json.load(f)['replay']
-        case = dict(rp['case'], rule=rp['rule'], asis=rp['asis'])
+        case = dict(rp['case'], rule=rp['rule'],
+                    disc=rp.get('disc', ['dropPortRevoked'] if
+                                rp.get('asis') else []),
+                    shuffle=rp.get('shuffle', False))
         r = HT.attempt(case, rp['variant'], workdir=None)
         tally = {}
         judge(ctx, HT, 'replay', case, rp['variant'], r, tally)
@@ -106,17 +109,21 @@ def main(ctx):
         tlc_run(ctx, 'lines <= 3', MaxLines=3,
                 LineKeys='{"K1", "K2", "CA1"}')
         tlc_run(ctx, 'callbacks, lines <= 2', Focus='"callbacks"')
-    tlc_run(ctx, 'sensitivity: lookup as known_hosts.py does it today '
-            '(fall-back drops @revoked [host]:port)',
-            FallbackKeepsRevoked='FALSE', expect='DecisionMatchesRule',
-            invariants=['DecisionMatchesRule'], properties=())
-    tlc_run(ctx, 'sensitivity: revoked set ignored', SkipRevoked='TRUE',
-            MaxLines=2, LineKeys='{"K1", "CA1"}',
-            expect='DecisionMatchesRule', invariants=['DecisionMatchesRule'],
-            properties=())
-    tlc_run(ctx, 'sensitivity: principals ignored', Focus='"cert"',
-            PrincipalsIgnored='TRUE', expect='DecisionMatchesRule',
-            invariants=['DecisionMatchesRule'], properties=())
+    sens = [('dropPortRevoked', dict()),
+            ('orRevoked', dict(Focus='"sets"',
+                               LineKeys='{"K1", "K2", "CA1"}')),
+            ('skipRevokedKey', dict(LineKeys='{"K1", "CA1"}')),
+            ('princIgnored', dict(Focus='"cert"')),
+            ('vbInclusive', dict(Focus='"cert"'))]
+    if not quick:
+        sens += [('fbIgnoresCA', {}), ('holdsIgnored', dict(MaxLines=1)),
+                 ('trustAllSkipsSig', dict(Focus='"trustall"')),
+                 ('cbCAForRevoked', dict(Focus='"callbacks"', MaxLines=1)),
+                 ('certSigIgnored', dict(Focus='"cert"'))]
+    for mu, kw in sens:
+        tlc_run(ctx, f'sensitivity: decision variant {mu}', Mu=f'"{mu}"',
+                expect='DecisionMatchesRule',
+                invariants=['DecisionMatchesRule'], properties=(), **kw)
     tlc_run(ctx, 'witness: acceptance through the plain-name fall-back',
             expect='NeverFallbackAccept', invariants=['NeverFallbackAccept'],
             properties=())
@@ -132,7 +139,14 @@ def main(ctx):
         ('trustall', emit_cases(ctx, 'known_hosts=None', Focus='"trustall"'),
          200 if quick else None),
     ]
+    tables.append(('sets3', emit_cases(
+        ctx, 'sets of 3 matching lines over K1, K2, CA1, other port',
+        Focus='"sets"', LineKeys='{"K1", "K2", "CA1"}', SetSize=3),
+        500 if quick else None))
     if not quick:
+        tables.append(('sets4', emit_cases(
+            ctx, 'sets of 4 matching lines over K1, K2, CA1, other port',
+            Focus='"sets"', LineKeys='{"K1", "K2", "CA1"}', SetSize=4), 6000))
         tables.append(('lines3', emit_cases(
             ctx, 'lines <= 3 over K1, CA1', MaxLines=3,
             LineKeys='{"K1", "CA1"}'), 9000))
@@ -149,10 +163,12 @@ def main(ctx):
             idx = list(range(len(table)))
             rnd.shuffle(idx)
             if limit is not None and limit < len(idx):
-                idx = stratified(table, idx, limit)
+                idx = stratified(table, idx, limit, 10 if quick else 60)
             for n, i in enumerate(idx):
                 case = table[i]
                 variant = rnd.randrange(1 << 20)
+                if tname.startswith('sets'):
+                    case = dict(case, shuffle=True)
                 r = HT.attempt(case, variant, workdir=work)
                 total += 1
                 judge(ctx, HT, tname, case, variant, r, tally)
@@ -207,11 +223,12 @@ def pres_faults(p):
             (p['princ'] == 'other') + (not p['certSig']) + (not p['holds']))
 
 
-def stratified(table, idx, limit):
-    """Sample that keeps (a) every row on which the lookup as implemented
-    today and the property differ, (b) rejections that are one fault away
-    from an acceptance (each single check of the decision is only visible
-    there), (c) acceptances, (d) other rejections."""
+def stratified(table, idx, limit, per_variant):
+    """Sample that keeps (a) for every decision variant of the
+    specification up to per_variant rows which that variant would decide
+    differently (the rows that can tell a deviating implementation from
+    the rule), (b) rejections that are one fault away from an acceptance,
+    (c) acceptances, (d) other rejections."""
     # is the trust configuration fine for a faultless presentation?
     env_ok = {}
     for c in table:
@@ -225,8 +242,18 @@ def stratified(table, idx, limit):
         f = pres_faults(c['pres'])
         return (f == 1 and env_ok.get(k, False)) or \
             (f == 0 and near_miss(c))
-    a = [i for i in idx if table[i]['rule'] != table[i]['asis']][:80]
-    rest = [i for i in idx if table[i]['rule'] == table[i]['asis']]
+    taken = {}
+    a = []
+    for i in idx:                       # idx is already shuffled
+        new = [m for m in table[i]['disc']
+               if taken.get((m, table[i]['rule']), 0) < per_variant]
+        if new:
+            a.append(i)
+            for m in table[i]['disc']:
+                taken[m, table[i]['rule']] = \
+                    taken.get((m, table[i]['rule']), 0) + 1
+    aset = set(a)
+    rest = [i for i in idx if i not in aset]
     b = [i for i in rest if not table[i]['rule'] and one_fault(table[i])]
     c = [i for i in rest if table[i]['rule']]
     d = [i for i in rest if not table[i]['rule'] and
@@ -250,7 +277,8 @@ def judge(ctx, HT, tname, case, variant, r, tally):
     ctx.count((tname, str(slim(case)), tuple(r.forms), r.info['ktype'],
                r.info['alias'], r.info['by_addr']), nontrivial=True)
     replay = {'kind': 'host_trust', 'case': slim(case), 'variant': variant,
-              'rule': case['rule'], 'asis': case['asis'],
+              'rule': case['rule'], 'disc': case['disc'],
+              'shuffle': bool(case.get('shuffle')),
               'known_hosts': r.kh_text, 'forms': r.forms, 'info': r.info}
     if r.mitm_errors:
         raise MachineryError(f'wire observer failed: {r.mitm_errors}')
@@ -260,7 +288,7 @@ def judge(ctx, HT, tname, case, variant, r, tally):
         return
     creds = r.server_begin_auth > 0 or bool(r.server_passwords)
     if not rule:
-        if case['asis'] and not case['rule'] and (r.accepted or creds):
+        if 'dropPortRevoked' in case['disc'] and (r.accepted or creds):
             sig = {'module': 'HostTrust',
                    'finding': 'revoked [host]:port entry dropped by the '
                               'plain-name fall-back'}
